@@ -16,3 +16,7 @@ def run(repo, res, tier):
     hookrules.rule_tb9(repo, res)
     hookrules.rule_io_kind(repo, res)
     hookrules.rule_l1(repo, res)
+    # the same file gives the same text whether a path, an open file or a stream is handed over (the command-line
+    # tools hand over open files, the library functions usually paths)
+    from .. import entryrules as _er
+    _er.rule_f4(repo, res)
